@@ -377,21 +377,23 @@ Proof.
       * rewrite (loop_incomplete f) by (try assumption; lia).
         cbn [r_closed r_ps r_buf]. now rewrite seq_res_nil.
       * pose proof (parse_frame_shorter _ _ _ _ _ E) as L.
-        rewrite (loop_step f cs p _ _ _ _ _ ltac:(lia) E).
+        rewrite (loop_step f cs p (b :: d') fin o pl r ltac:(lia) E).
         rewrite (loop_step f cs p _ _ _ _ _ H (parse_frame_app _ x _ _ _ _ E)).
         assert (HI : forall p', match loop f cs p' r with
                  | ROk r0 => loop f cs p' (r ++ x) =
                      if r_closed r0 then ROk r0 else seq_res r0 (loop f cs (r_ps r0) (r_buf r0 ++ x))
                  | RCrash => loop f cs p' (r ++ x) = RCrash
                  | RFuel => False end).
-        { intros p'. apply IH; [cbn [length] in Hn; lia|]. rewrite app_length. lia. }
+        { intros p'. apply IH; [lia|]. rewrite app_length. lia. }
         destruct (frame_act cs p fin o pl) as [m p'|w p'|p'| |]; try reflexivity.
         -- specialize (HI p'). destruct (loop f cs p' r) as [r0| |]; cbn [add_msg]; try easy.
-           ++ rewrite HI. cbn [r_closed r_ps r_buf]. destruct (r_closed r0); [reflexivity|].
+           ++ rewrite HI. cbn [r_closed r_ps r_buf].
+              destruct (r_closed r0) eqn:Ec; [cbn; now rewrite Ec|].
               destruct (loop f cs (r_ps r0) (r_buf r0 ++ x)) as [y| |]; reflexivity.
            ++ now rewrite HI.
         -- specialize (HI p'). destruct (loop f cs p' r) as [r0| |]; cbn [add_write]; try easy.
-           ++ rewrite HI. cbn [r_closed r_ps r_buf]. destruct (r_closed r0); [reflexivity|].
+           ++ rewrite HI. cbn [r_closed r_ps r_buf].
+              destruct (r_closed r0) eqn:Ec; [cbn; now rewrite Ec|].
               destruct (loop f cs (r_ps r0) (r_buf r0 ++ x)) as [y| |]; reflexivity.
            ++ now rewrite HI.
         -- exact (HI p').
